@@ -120,12 +120,14 @@ PROPS['C11']['expect_probes'] = PROPS['C11']['expect_probes'] + ['arguments_pass
 PROPS['C03']['expect_probes'] = PROPS['C03']['expect_probes'] + ['static_array_indexed_with_narrow_integer_type']
 PROPS['C11']['expect_probes'] = PROPS['C11']['expect_probes'] + ['name_buffer_reused_after_lookup']
 
-TOCTOU_RULE = ('one run = one copy_and_verify scenario (18 variants: string with unique_ptr / std::string verifier from a tainted pointer and from a pointer cell; ranges of '
-               'char/short/int/long long/double; pointer-to-primitive, pointer cell, fundamental in a cell, registered struct, fixed array field, address, buffer address; '
+TOCTOU_RULE = ('one run = one copy_and_verify scenario (24 variants: string with unique_ptr<char[]> / unique_ptr<const char[]> / std::string verifier from a tainted pointer and '
+               'from a pointer cell; ranges of char/short/int/long long/double; pointer-to-primitive, pointer cell, fundamental in a cell, registered struct through a pointer and by value, '
+               'fixed array field with the verifier taking it by value and by reference, address, buffer address from a tainted pointer and from a cell; '
                'copy_memory_or_deny_access copy path with host malloc failure) x source placement (interior / ending at the last byte of the region with an application canary '
-               'page behind it) x 0-3 guest mutations (remove / insert terminator, lengthen, flip element, retarget or null the pointer cell, scribble the region) each fired at a '
-               'chosen k-th access RLBox makes to sandbox memory (trap-MMU: PROT_NONE application view, memfd double mapping, single-step), plus an unconditional scribble of '
-               'the whole region inside the verifier and after return; the quick tier enumerates (variant x placement x len in {1,5,16}) x every access index x every mutation; '
+               'page behind it) x 0-3 guest mutations (remove / insert terminator, lengthen, flip element, retarget the pointer cell to a second buffer or to the last bytes of the region, '
+               'null the cell, scribble the region) each fired at a chosen k-th access RLBox makes to sandbox memory (trap-MMU: PROT_NONE application view, memfd double mapping, single-step), plus an unconditional scribble of '
+               'the whole region inside the verifier and after return; optionally the n-th host allocation made inside the call fails; the quick tier enumerates (variant x placement x len in {1,5,16}) x every access index x every mutation, '
+               'and x allocation failure n in {1,2,3}; '
                'non-trivial = at least one mutation fired inside the call; distinct = event-log hashes (include the trap trace R/W@offset)')
 TOCTOU_WORLD = dict(world='toctou', variants=['plain', 'asan'],
                     quick=dict(count=16000, time_limit=90, enumerate=True, variant_share={'plain': 0.6, 'asan': 0.4}, enum_share={'plain': 1.0, 'asan': 1.0}),
@@ -134,9 +136,9 @@ PROPS.update({
     'C09': dict(level='fault_enumeration', worlds=[TOCTOU_WORLD], rule=TOCTOU_RULE, components=dict(
                     real_code=COMPONENTS_SIM['real_code'],
                     stubs=COMPONENTS_SIM['stubs'] + ['trap-MMU (mprotect + SIGSEGV + x86 trap flag) deciding when the guest actor writes', 'host malloc wrapper (-Wl,--wrap=malloc)']),
-                exhaustive_subspace='(18 variants x 2 placements x lengths {1,5,16}) x every access index of the fault-free execution x 7 mutations, single fault per run',
+                exhaustive_subspace='(24 variants x 2 placements x lengths {1,5,16}) x (every access index of the fault-free execution x 8 mutations, or failure of host allocation 1..3), single fault per run',
                 expect_probes=['fault_free_run', 'source_ends_at_last_byte_of_region', 'F2_remove_terminator', 'F2_insert_terminator', 'F2_lengthen', 'F2_flip_element',
-                               'F2_retarget_cell', 'F2_null_cell', 'F2_scribble_region', 'F5_host_malloc_null'],
+                               'F2_retarget_cell', 'F2_null_cell', 'F2_scribble_region', 'F5_host_malloc_null', 'F2_retarget_cell_to_region_end', 'F5_host_allocation_fails_inside_call'],
                 assumptions=['interleaving granularity is one machine instruction that touches sandbox memory (an SSE strlen step or memcpy chunk is one access)',
                              'copy_and_verify_range on long* is excluded (host-width reads at guest stride: a C07 matter, not claimed)',
                              'provenance oracle: a delivered byte must equal the byte some version of a candidate source location held between call entry and verifier entry',
